@@ -47,7 +47,7 @@ func Dispatch() {
 
 		for _, p := range progs {
 			name := fmt.Sprintf("%s/s%d.ego", os.Args[2], p.ID)
-			_ = os.WriteFile(name, []byte("// "+p.Key()+"\n"+Source([]Prog{p}, false)), 0o644)
+			_ = os.WriteFile(name, []byte("// "+p.Key()+"\n"+Source([]Prog{p}, styleSolo)), 0o644)
 		}
 
 		fmt.Println(len(progs), "programs")
@@ -101,7 +101,7 @@ func mark(kind string, id, rc int) {
 // runOne mirrors main() and reportError() of ego's main.go, returning the exit
 // status instead of exiting.
 func runOne(args []string) int {
-	a := app.New("ego: " + i18n.T("ego")).
+	a := app.New("ego: "+i18n.T("ego")).
 		SetVersion(1, 0, 0).
 		SetCopyright("(C) Copyright Tom Cole 2020 - 2026").
 		SetDefaultAction(commands.RunAction).
